@@ -195,6 +195,9 @@ def vals(ctx, model, names=("x", "z", "Q2", "m2")):
     return {k: float(asg.get(k, ctx.assign.get(k, 0.5))) for k in names}
 
 
+SHARDABLE = True
+
+
 def run(chk, only=None):
     from yadism.coefficient_functions.heavy import partonic_channel as hpc
     from yadism.esf import conv
@@ -211,6 +214,8 @@ def run(chk, only=None):
         chk.encode(cls)
         for nf in nfs:
             for order in range(4):
+                if not chk.mine(f"{mname}.{cname}/{nf}/{order}"):
+                    continue
                 with Ctx(chk.seed) as ctx, stubs.cf_stubs():
                     try:
                         ex = explore.Explorer(ctx, max_paths=64, timeout_ms=5000)
@@ -269,6 +274,8 @@ def run(chk, only=None):
             if chk.tier == "quick" and (len(kind) + len(flav) + len(proc) + nf + pto + len(sch)) % 3:
                 continue
             cname = f"wiring:{kind}_{flav}/{proc}/{sch}/nf{nf}/pto{pto}"
+            if not chk.mine(cname):
+                continue
             with Ctx(chk.seed) as ctx, cm.fixed_nf(), stubs.cf_stubs():
                 def body(kind=kind, flav=flav, proc=proc, sch=sch, nf=nf, zm=zm, pto=pto):
                     import yadism.coefficient_functions as cf
@@ -329,6 +336,8 @@ def run(chk, only=None):
                                       what=f"{cname}: asymptotic {comp_name} contribution uses another quark's mass")
         chk.section("wiring", cells=len(cells), mass_claims=nw)
     # ---- charged current: slow rescaling point and empty domain ----
+    if not chk.first:
+        return chk.finish(explanation="shard of C09 (see the merged evidence)", rule="")
     for mname, cname, cls in heavy_cc_classes():
         chk.encode(cls)
         with Ctx(chk.seed) as ctx, stubs.cf_stubs():
